@@ -36,5 +36,5 @@ package checksumutils
 
 //@ func verifStreamingEqualsOneShot
 //@ mode nosafety
-//@ bounded 250
+//@ bounded 3000
 //@ ensures[C35:streaming-digests-equal-one-shot-digests] result
